@@ -4,34 +4,128 @@ from ..fdai import EnumV, AggV, K, SymV, RefV, Cell, Loc, TOP, load
 from . import dispatch as D
 
 LEVEL = "other"
-TECHNIQUE = "FDAI over byte classes: exact step table of the short/long-form comparison closure (class of defined byte x candidate byte absent/equal-ignoring-case/different x latch), frame check of mnemonic_compare, four-arm suffix table of mnemonic_match, split rule of mnemonic_split_index, routing census (who compares with which matcher and which keyword literals)"
-LEVEL_TEXT = "The comparison step function is enumerated over its complete abstract state space (4 classes of the defined byte x 4 candidate situations x 2 latch values) and compared with the step table whose fold accepts exactly {short form, long form}; the suffix rule is enumerated over the four (suffix present/absent)^2 arms with the operands and the equality primitive of each arm checked; the split function and all call sites of the two matchers are checked structurally."
-LEVEL_NOTE = "Not decided: the last step from the step table and the arm table to 'iff over all (definition, candidate) pairs' is the paper argument of DESIGN.md Appendix C; definitions outside SCPI shape. Trusted: rustc MIR, core's Iterator::all / rposition / split_at / slice equality contracts."
+TECHNIQUE = "abstract interpretation (constant folding of the MIR of mnemonic_compare / mnemonic_match / mnemonic_split_index / Token::match_program_header, helpers analysed in place) over class-representative definition/candidate strings, compared with a reference statement of the SCPI rule; plus a census of who compares which keyword literal with which matcher"
+LEVEL_TEXT = "The three matching functions are folded by the analyser - not executed - on every candidate that agrees, differs in case or differs in letter per position (plus digit/underscore endings and one extra byte) for every SCPI-shaped definition up to 4 bytes, on every prefix / single-position deviation of four 12-byte definitions and on every library keyword; the suffix rule is folded over {absent,1,2,12}^2-style suffix pairs including leading-zero forms; the result must equal the reference rule on every point and must be decided (a single boolean) on every point. Which literals are compared with which matcher is checked over all call sites of the workspace."
+LEVEL_NOTE = "Not decided: definitions and candidates beyond the enumerated representatives (the extension to all strings up to 12 bytes rests on the matching loop treating every byte position alike); definitions outside SCPI shape. Trusted: rustc MIR, the analyser's models of core slice/iterator/Option APIs (sa/scpi_models.py), the reference rule in this file."
 
 UTIL = "scpi::parser::tokenizer::util::"
 KEYWORDS = {b"MAXimum", b"MINimum", b"DEFault", b"UP", b"DOWN", b"INFinity", b"NINFinity", b"NAN", b"ONCE"}
 
 
-def m_eq_ignore_case(eng, st, fr, t, name, rname, args):
-    a = M._byte_arg(eng, st, args[0])
-    b = M._byte_arg(eng, st, args[1])
-    if a is None or b is None:
-        return NotImplemented
-
-    def low(x):
-        return x | 0x20 if 65 <= x <= 90 else x
-
-    st.trace.append(fdai.Event("call", name, rname, (("K", a), ("K", b)), fr.bi, t.get("line"), len(st.frames), fr.body.npath))
-    return K(low(a) == low(b))
-
-
 def engine():
     P = D.prog()
     u = P.unit("scpi")
-    models = dict(M.BYTE_MODELS)
-    models["core::num::eq_ignore_ascii_case"] = m_eq_ignore_case
-    models["core::num::<impl u8>::eq_ignore_ascii_case"] = m_eq_ignore_case
-    return fdai.Engine(P, u, inline=lambda n, r: False, models=models, loop_limit=3)
+    models = dict(M.FOLD_MODELS)
+    # every function of the tokenizer's util/token modules is analysed in place, whatever helpers the code is split into
+    inl = lambda n, r: r.startswith((UTIL, "scpi::parser::tokenizer::token::"))
+    return fdai.Engine(P, u, inline=inl, models=models, loop_limit=64, max_paths=64)
+
+
+def sl(b):
+    return RefV(Cell(fdai.BytesV(bytes(b)), "bytes"))
+
+
+# ---- reference semantics (IEEE 488.2 7.6.1 / SCPI-99 6.2.1 as stated in the property) ---------------------------
+
+def ref_split(x):
+    """(alphabetic part, numeric suffix or None): the suffix is the maximal run of trailing digits; a string of
+    digits only has no name part and is left whole"""
+    i = len(x)
+    while i > 0 and 48 <= x[i - 1] <= 57:
+        i -= 1
+    if i == len(x) or i == 0:
+        return x, None
+    return x[:i], x[i:]
+
+
+def ref_short(name):
+    """short form: the definition without its lower-case remainder"""
+    i = len(name)
+    while i > 0 and 97 <= name[i - 1] <= 122:
+        i -= 1
+    return name[:i]
+
+
+def ref_form_match(name, cand):
+    c = cand.lower()
+    return c == name.lower() or c == ref_short(name).lower()
+
+
+def ref_match(m, s):
+    mn, ms = ref_split(m)
+    sn, ss = ref_split(s)
+    return ref_form_match(mn, sn) and (ms or b"1") == (ss or b"1")
+
+
+def swap(b):
+    return b ^ 0x20 if (65 <= b <= 90 or 97 <= b <= 122) else b
+
+
+def candidates(m, extra=1):
+    """strings that agree or disagree with m position by position: same byte, other case, a different letter;
+    the last position additionally a digit and an underscore; up to `extra` bytes longer than m"""
+    out = [b""]
+    layer = [b""]
+    for i in range(len(m) + extra):
+        nxt = []
+        for p in layer:
+            if i < len(m):
+                opts = [m[i], swap(m[i]), ord("x") if m[i] not in (ord("x"), ord("X")) else ord("y")]
+            else:
+                opts = [ord("x")]
+            for o in opts:
+                nxt.append(p + bytes([o]))
+        # specials at the last position only
+        for p in layer:
+            for o in (ord("1"), ord("_")):
+                out.append(p + bytes([o]))
+        out.extend(nxt)
+        layer = nxt
+    seen = set()
+    res = []
+    for c in out:
+        if c not in seen and len(c) <= 12:
+            seen.add(c)
+            res.append(c)
+    return res
+
+
+def decide(eng, body, args):
+    """constant-fold a bool function; returns True/False or a description of why it is undecided"""
+    try:
+        res = eng.run(body, args)
+    except fdai.TooManyPaths as e:
+        return "undecided (%s)" % e
+    vals = set()
+    for r in res:
+        if r.outcome != "return" or not isinstance(r.retval, K) or not isinstance(r.retval.v, bool):
+            return "undecided (%s %r)" % (r.outcome, r.retval)
+        vals.add(r.retval.v)
+    if len(vals) != 1:
+        return "undecided (paths disagree: %s)" % sorted(vals)
+    return vals.pop()
+
+
+def header_match_table(R, rule, eng=None):
+    """Token::match_program_header over every token variant: mnemonic and character data are compared with the
+    full mnemonic rule (default-1 suffix included), every other element never matches. Shared with C02 (routing)."""
+    eng = eng or engine()
+    u = eng.unit
+    mph = u.body("scpi::parser::tokenizer::token::Token::match_program_header")
+    pairs = [(b"ABc", b"ab"), (b"ABc", b"abc"), (b"ABc", b"a"), (b"ABc", b"ab1"), (b"ABc2", b"ab2"), (b"ABc2", b"ab"), (b"ABc", b"ab2"), (b"ABc1", b"abc"), (b"ABc", b"ab01"), (b"ABc", b"abcd")]
+    for name in M.NONDATA + M.DATA:
+        if name in ("ProgramMnemonic", "CharacterProgramData"):
+            bad = []
+            for m, s_ in pairs:
+                tok = M.token(eng, name, [sl(s_)])
+                got = decide(eng, mph, [RefV(Cell(tok, "tok")), sl(m)])
+                if got is not ref_match(m, s_):
+                    bad.append("%s(%r).match_program_header(%r) = %s, expected %s" % (name, s_, m, got, ref_match(m, s_)))
+            R.check(not bad, rule, "match_program_header(%s)" % name, "the full mnemonic rule on the payload (%d definition/candidate pairs incl. default-1 suffix cases)" % len(pairs), "; ".join(bad[:4]), where=mph.span)
+        else:
+            tok = M.token(eng, name)
+            got = decide(eng, mph, [RefV(Cell(tok, "tok")), sl(b"ABc")])
+            R.check(got is False, rule, "match_program_header(%s)" % name, "false", "match_program_header on a %s element must be false, got %s" % (name, got), where=mph.span)
 
 
 def run(R, tier):
@@ -39,250 +133,99 @@ def run(R, tier):
     P = D.prog()
     u = P.unit("scpi")
     eng = engine()
+    thorough = tier == "thorough"
 
-    # ---- R03.1 frame of mnemonic_compare ----------------------------------------------------------
+    # ---- R03.1 short/long form: mnemonic_compare over class-representative strings -----------------------------------
     mc = u.body(UTIL + "mnemonic_compare")
-    res = eng.run(mc, [SymV("mnemonic", "mnemonic"), SymV("s", "s")])
-    frame_ok = len(res) == 2
-    closure_def = None
-    for r in res:
-        pi = D.PathInfo(r)
-        names = [n.split("::")[-1] for n in pi.call_names]
-        assume = [e for e in r.trace if e.kind == "assume" and e.name == "sym"]
-        guard = assume[0] if assume else None
-        gdesc = guard.args[0][2] if guard else None
-        # guard must be Ge(len(mnemonic), len(s))
-        def is_len(x, of):
-            return isinstance(x, tuple) and x[0] == "sym" and isinstance(x[2], tuple) and x[2][0] == "ret" and x[2][1].endswith("::len") and ("'%s'" % of) in repr(x[2][3])
-        gok = bool(gdesc) and gdesc[0] == "binop" and gdesc[1] == "Ge" and is_len(gdesc[2], "mnemonic") and is_len(gdesc[3], "s")
-        if not gok:
-            frame_ok = False
-            continue
-        if guard.args[1] is False:
-            if not (isinstance(r.retval, K) and r.retval.v is False and "all" not in names):
-                frame_ok = False
-        else:
-            alls = [e for e in pi.calls if e.name.endswith("Iterator::all")]
-            if len(alls) != 1 or M.outcome(r) != "ret:all":
-                frame_ok = False
-                continue
-            a = alls[0]
-            # iterates over the *defined* mnemonic, draws candidates from one iterator over s, latch starts true
-            it_ok = "'mnemonic'" in repr(a.args[0]) and "iter" in repr(a.args[0])
-            clo = [x for x in a.args if isinstance(x, tuple) and x and x[0] == "closure"]
-            if not it_ok or len(clo) != 1:
-                frame_ok = False
-            else:
-                closure_def = clo[0][1]
-    R.check(frame_ok and closure_def is not None, "R03.1", "mnemonic_compare:frame", "false unless len(mnemonic) >= len(s); otherwise Iterator::all over the defined mnemonic with the step closure", "mnemonic_compare must be `mnemonic.len() >= s.len() && mnemonic.iter().all(step)`: %s" % [D.PathInfo(r).describe() for r in res], where=mc.span)
-    # captures of the step closure: candidate iterator over s and the latch initialised to true
-    S = sym.Sym(mc.mir)
-    cap_ok = False
-    for bi in mc.mir.live_blocks():
-        for st in mc.mir.blocks[bi]["stmts"]:
-            if st["k"] == "assign" and st["rv"]["k"] == "aggr" and st["rv"].get("agg") == "closure":
-                caps = [sym.norm(S.operand(f)) for f in st["rv"]["fields"]]
-                it = latch = 0
-                for c in caps:
-                    ds = [sym.norm(x) for x in S.defs_of(c[1])] if c[0] == "var" else [c]
-                    if len(ds) == 1 and ds[0][0] == "call" and ds[0][1].endswith("iter") and sym.norm(ds[0][3][0]) == ("arg", 2, "s"):
-                        it += 1
-                    elif len(ds) == 1 and ds[0] == ("bool", True):
-                        latch += 1
-                cap_ok = len(caps) == 2 and it == 1 and latch == 1
-    R.check(cap_ok, "R03.1", "mnemonic_compare:captures", "step closure captures one iterator over the candidate and the latch (initially true)", "the step closure must draw candidate bytes from a single s.iter() and start with optional = true", where=mc.span)
+    shorts = [b"A", b"AB"] + ([b"ABC"] if thorough else [])
+    tails = [b"", b"c", b"cd"] + ([b"cde"] if thorough else [])
+    defs = [a + t for a in shorts for t in tails]
+    n = 0
+    for m in defs:
+        bad = []
+        cands = candidates(m)
+        for c in cands:
+            got = decide(eng, mc, [sl(m), sl(c)])
+            exp = ref_form_match(m, c)
+            n += 1
+            if got is not exp:
+                bad.append("mnemonic_compare(%r, %r) = %s, the short/long-form rule gives %s" % (m, c, got, exp))
+        R.check(not bad, "R03.1", "compare[%s]" % m.decode(), "matches exactly {short form, long form} ignoring case among %d candidates (agree/other-case/differ per position, digit/underscore endings, one byte longer)" % len(cands), "; ".join(bad[:5]), where=mc.span)
+    # keywords the library itself compares with this function
+    for kw in sorted(KEYWORDS):
+        bad = []
+        short = ref_short(kw)
+        probes = [kw, kw.lower(), kw.upper(), short, short.lower(), short[:-1], kw[:-1] if kw[:-1] != short else kw + b"x", kw + b"x", short + b"1", kw + b"1", b""]
+        for c in probes:
+            got = decide(eng, mc, [sl(kw), sl(c)])
+            exp = ref_form_match(kw, c)
+            n += 1
+            if got is not exp:
+                bad.append("mnemonic_compare(%r, %r) = %s, expected %s" % (kw, c, got, exp))
+        R.check(not bad, "R03.1", "compare[%s]" % kw.decode(), "keyword accepts only its short and long form", "; ".join(bad[:4]), where=mc.span)
+    # definitions of full length: every prefix, every single-position deviation, one byte too long
+    for m in (b"ABCDEFghijkl", b"ABCDefghijkl", b"ABCDEFGHIJKL", b"Abcdefghijkl"):
+        cands = [m, m.upper(), m.lower(), ref_short(m), ref_short(m).lower(), m + b"x", ref_short(m) + b"x"]
+        cands += [m[:i] for i in range(len(m))]
+        cands += [m[:i] + (b"x" if m[i:i + 1] not in (b"x", b"X") else b"y") + m[i + 1:] for i in range(len(m))]
+        cands += [m[:i] + b"1" for i in range(1, len(m))]
+        bad = []
+        for c in cands:
+            got = decide(eng, mc, [sl(m), sl(c)])
+            exp = ref_form_match(m, c)
+            n += 1
+            if got is not exp:
+                bad.append("mnemonic_compare(%r, %r) = %s, the short/long-form rule gives %s" % (m, c, got, exp))
+        R.check(not bad, "R03.1", "compare[%s]" % m.decode(), "12-byte definition: every prefix, every single-position deviation, one byte longer (%d candidates)" % len(cands), "; ".join(bad[:5]), where=mc.span)
+    R.count("compare_evaluations", n)
 
-    # ---- R03.1 step table ---------------------------------------------------------------------------------
-    if closure_def is not None:
-        cb = eng.find_body(closure_def)
-        upv = [x["name"] for x in cb.mir.m.get("upvars", [])]
-        if sorted(upv) != ["optional", "s_iter"] and len(upv) != 2:
-            R.anchor_lost("R03.1", "step closure captures (%s)" % upv)
-        else:
-            # capture order as recorded by rustc
-            order = upv if len(upv) == 2 else ["s_iter", "optional"]
-            reps = {"U": (ord("A"), {"=": ord("a"), "==": ord("A"), "!": ord("b")}), "L": (ord("a"), {"=": ord("A"), "==": ord("a"), "!": ord("B")}), "D": (ord("1"), {"=": ord("1"), "==": ord("1"), "!": ord("2")}), "O": (ord("_"), {"=": ord("_"), "==": ord("_"), "!": ord("-")})}
-            n = 0
-            for cls, (m, xs) in reps.items():
-                for xk in ("-", "=", "==", "!"):
-                    for latch in (True, False):
-                        st = fdai.State()
-                        st.extra["bytes"] = [] if xk == "-" else [xs[xk]]
-                        itcell = Cell(M.mk_bytes_iter(0), "s_iter")
-                        lcell = Cell(K(latch), "optional")
-                        caps = {}
-                        for i, nm in enumerate(order):
-                            caps[i] = RefV(itcell, (), True) if "iter" in nm else RefV(lcell, (), True)
-                        env = AggV("closure-env", caps)
-                        st.extra["cells"] = {"latch": lcell, "it": itcell}
-                        res = eng.run(cb, [RefV(Cell(env, "env"), (), True), RefV(Cell(K(m), "m"))], st)
-                        n += 1
-                        key = "step[m=%s,x=%s,latch=%s]" % (cls, {"-": "absent", "=": "equal-other-case", "==": "equal", "!": "different"}[xk], latch)
-                        if len(res) != 1 or res[0].outcome != "return" or not isinstance(res[0].retval, K):
-                            R.violation("R03.1", key, "step function is not decided for this abstract state: %s" % [(r.outcome, r.retval) for r in res])
-                            continue
-                        r = res[0]
-                        got = bool(r.retval.v)
-                        l2 = r.extra["cells"]["latch"].v
-                        l2 = l2.v if isinstance(l2, K) else None
-                        pos = r.extra["cells"]["it"].v.fields[0].v
-                        if xk == "-":
-                            exp = (cls in ("L", "O")) and latch
-                            exp_l = latch
-                        else:
-                            exp = xk in ("=", "==")
-                            exp_l = False if cls == "L" else latch
-                        exp_pos = 0 if xk == "-" else 1
-                        R.check(got == exp and l2 == exp_l and pos == exp_pos, "R03.1", key, "-> (%s, latch=%s)" % (exp, exp_l),
-                                "step(m class %s, candidate %s, latch %s) = (%s, latch=%s, consumed %s); the short/long-form rule requires (%s, latch=%s, consumed %s)" % (cls, xk, latch, got, l2, pos, exp, exp_l, exp_pos), where=cb.span)
-            R.count("step_states", n)
-
-    # ---- R03.2 suffix arms of mnemonic_match ----------------------------------------------------------------------
+    # ---- R03.2 numeric suffix: mnemonic_match ------------------------------------------------------------------------------
     mm = u.body(UTIL + "mnemonic_match")
-    res = eng.run(mm, [SymV("mnemonic", "mnemonic"), SymV("s", "s")])
-    arms = {}
-    first_ok = True
-    for r in res:
-        pi = D.PathInfo(r)
-        calls = pi.calls
-        if not calls or not calls[0].name.endswith("mnemonic_compare") or "'mnemonic'" not in repr(calls[0].args[0]) or "'s'" not in repr(calls[0].args[1]):
-            first_ok = False
-            continue
-        whole = D.assumed(pi, "mnemonic_compare", 1)
-        if whole is True:
-            if not (isinstance(r.retval, K) and r.retval.v is True and len(calls) == 1):
-                first_ok = False
-            continue
-        # split results
-        splits = [e for e in calls if e.name.endswith("mnemonic_split_index")]
-        if len(splits) != 2 or "'mnemonic'" not in repr(splits[0].args[0]) or "'s'" not in repr(splits[1].args[0]):
-            first_ok = False
-            continue
-        va = [e.args[1] for e in r.trace if e.kind == "assume" and e.name == "variant" and "mnemonic_split_index" in repr(e.args[0])]
-        if len(va) != 2:
-            first_ok = False
-            continue
-        arms.setdefault(tuple(va), []).append((r, pi))
-    R.check(first_ok, "R03.2", "mnemonic_match:whole-first", "whole-mnemonic comparison first (true short-circuits), then both sides are split", "mnemonic_match must be `mnemonic_compare(mnemonic, s) || match (split(mnemonic), split(s))`: %s" % [D.PathInfo(r).describe() for r in res][:6], where=mm.span)
+    names = [b"AB", b"ABc"]
+    sufs = [b"", b"1", b"2", b"12"] + ([b"10", b"01"] if thorough else [])
+    c_alpha = [b"AB", b"ab", b"ABC", b"abc", b"aBc", b"A", b"ABCD", b"ABX", b"abx", b""]
+    c_suf = [b"", b"1", b"2", b"01", b"12", b"21", b"012"] + ([b"10", b"001", b"120"] if thorough else [])
+    n = 0
+    for nm in names:
+        for sf in sufs:
+            m = nm + sf
+            bad = []
+            for ca in c_alpha:
+                for cs in c_suf:
+                    c = ca + cs
+                    got = decide(eng, mm, [sl(m), sl(c)])
+                    exp = ref_match(m, c)
+                    n += 1
+                    if got is not exp:
+                        bad.append("mnemonic_match(%r, %r) = %s, the rule gives %s" % (m, c, got, exp))
+            R.check(not bad, "R03.2", "match[%s]" % m.decode(), "short or long form and equal suffix (absent = 1, compared digit for digit) over %d candidates" % (len(c_alpha) * len(c_suf)), "; ".join(bad[:5]), where=mm.span)
+    R.count("match_evaluations", n)
 
-    def side(argsnap):
-        s = repr(argsnap)
-        which = "mnemonic" if "'mnemonic'" in s and "mnemonic_split_index" in s else "s" if "mnemonic_split_index" in s else None
-        if which is None:
-            return "whole-mnemonic" if "'mnemonic'" in s else "whole-s" if "'s'" in s else "?"
-        # which tuple field of the split payload
-        fld = "name" if "('field', 0," in s else "suffix" if "('field', 1," in s else "?"
-        # the split of which input: the payload symbol derives from the call whose arg mentions the input
-        src = "mnemonic" if "('sym', 'mnemonic', 'mnemonic')" in s else "s"
-        return "%s.%s" % (src, fld)
-
-    def arm_check(va, exp_compare, exp_eq):
-        ps = arms.get(va, [])
-        key = "arm[%s,%s]" % va
-        if not ps:
-            R.violation("R03.2", key, "no path for this arm")
-            return
-        good = True
-        saw_true_path = False
-        for r, pi in ps:
-            tail = pi.calls[3:]
-            if exp_compare is None:
-                if tail or not (isinstance(r.retval, K) and r.retval.v is False):
-                    good = False
-                continue
-            cmpc = [e for e in tail if e.name.endswith("mnemonic_compare")]
-            eqs = [e for e in tail if e.name.endswith("PartialEq::eq") or "cmp::impls" in (e.rname or "")]
-            if len(cmpc) != 1 or (side(cmpc[0].args[0]), side(cmpc[0].args[1])) != exp_compare:
-                good = False
-                continue
-            cres = D.assumed(pi, "mnemonic_compare", 2)
-            if cres is False:
-                if eqs or not (isinstance(r.retval, K) and r.retval.v is False):
-                    good = False
-            else:
-                saw_true_path = True
-                if len(eqs) != 1:
-                    good = False
-                    continue
-                a0, a1 = eqs[0].args[0], eqs[0].args[1]
-                got = (side(a0) if "bytes" not in repr(a0) else "const", side(a1) if "('bytes'" not in repr(a1) else "const:%r" % _bytes_in(a1))
-                if got != exp_eq or M.outcome(r) != "ret:eq":
-                    good = False
-                # equality must be byte-slice equality (so that `01` != `1`)
-                st_ = eqs[0].extra or {}
-                if "[u8" not in repr(st_.get("gargs")) and "[u8" not in repr(st_.get("self_ty")):
-                    good = False
-        if exp_compare is not None and not saw_true_path:
-            good = False
-        R.check(good, "R03.2", key, "compare%s && suffix-equality%s (byte-slice equality)" % (exp_compare, exp_eq) if exp_compare else "no suffix on either side: false",
-                "suffix arm %s must be compare%s && %s == %s by byte-slice equality: %s" % (va, exp_compare, exp_eq[0] if exp_eq else "", exp_eq[1] if exp_eq else "", [pi.describe() for _, pi in ps]), where=mm.span)
-
-    arm_check(("None", "None"), None, None)
-    arm_check(("Some", "None"), ("mnemonic.name", "whole-s"), ("mnemonic.suffix", "const:b'1'"))
-    arm_check(("None", "Some"), ("whole-mnemonic", "s.name"), ("s.suffix", "const:b'1'"))
-    arm_check(("Some", "Some"), ("mnemonic.name", "s.name"), ("mnemonic.suffix", "s.suffix"))
-
-    # ---- R03.3 split rule -----------------------------------------------------------------------------------------
+    # ---- R03.3 split rule -----------------------------------------------------------------------------------------------------------
     sp = u.body(UTIL + "mnemonic_split_index")
-    res = eng.run(sp, [SymV("m", "m")])
-    kinds = set()
-    good = True
-    pred_def = None
-    for r in res:
-        pi = D.PathInfo(r)
-        rp = [e for e in pi.calls if e.name.endswith("Iterator::rposition")]
-        if len(rp) != 1:
-            good = False
-            continue
-        for a in rp[0].args:
-            if isinstance(a, tuple) and a and a[0] == "closure":
-                pred_def = a[1]
-        var = [e.args[1] for e in r.trace if e.kind == "assume" and e.name == "variant" and "rposition" in repr(e.args[0])]
-        if var == ["None"]:
-            kinds.add("no-non-digit")
-            good = good and isinstance(r.retval, EnumV) and r.retval.name == "None"
-        elif var == ["Some"]:
-            eq = [e for e in r.trace if e.kind == "assume" and e.name == "sym" and isinstance(e.args[0][2], tuple) and e.args[0][2][0] == "binop" and e.args[0][2][1] == "Eq"]
-            if len(eq) != 1:
-                good = False
-                continue
-            d = repr(eq[0].args[0][2])
-            if not ("rposition" in d and "Sub" in d and "len" in d):
-                good = False
-            if eq[0].args[1] is True:
-                kinds.add("no-trailing-digits")
-                good = good and isinstance(r.retval, EnumV) and r.retval.name == "None"
-            else:
-                kinds.add("split")
-                sa = [e for e in pi.calls if e.name.endswith("split_at")]
-                ok = len(sa) == 1 and "Add" in repr(sa[0].args[1]) and "rposition" in repr(sa[0].args[1]) and ("K", 1) in _flat(sa[0].args[1])
-                ok = ok and isinstance(r.retval, EnumV) and r.retval.name == "Some"
-                good = good and ok
-    R.check(good and kinds == {"no-non-digit", "no-trailing-digits", "split"}, "R03.3", "mnemonic_split_index", "splits after the last non-digit; None without trailing digits or without a name part", "mnemonic_split_index must split after the last non-digit byte (None if there are no trailing digits or only digits): %s" % [D.PathInfo(r).describe() for r in res], where=sp.span)
-    if pred_def:
-        pb = eng.find_body(pred_def)
-        okp = True
-        for b_, exp in ((ord("5"), False), (ord("A"), True), (ord("a"), True), (ord("_"), True)):
-            rr = eng.run(pb, [RefV(Cell(AggV("closure-env", {}), "env"), (), True), RefV(Cell(K(b_), "b"))])
-            if not (len(rr) == 1 and isinstance(rr[0].retval, K) and bool(rr[0].retval.v) == exp):
-                okp = False
-        R.check(okp, "R03.3", "split-predicate", "searches for the last byte that is not an ASCII digit", "the split predicate must be `!is_ascii_digit`", where=pb.span)
-    else:
-        R.anchor_lost("R03.3", "rposition predicate of mnemonic_split_index")
+    bad = []
+    probes = [b"", b"1", b"12", b"A", b"Ab", b"A1", b"A12", b"Ab12", b"1A", b"1A2", b"A1B", b"A1B2", b"_1", b"a0", b"A_", b"A_1"]
+    for x in probes:
+        try:
+            res = eng.run(sp, [sl(x)])
+        except fdai.TooManyPaths:
+            res = []
+        exp = ref_split(x)
+        got = None
+        if len(res) == 1 and res[0].outcome == "return" and isinstance(res[0].retval, EnumV):
+            rv = res[0].retval
+            if rv.name == "None":
+                got = (x, None)
+            elif rv.name == "Some" and isinstance(rv.fields.get(0), AggV):
+                parts = [M._bytes_of(eng, res[0], rv.fields[0].fields.get(i)) for i in (0, 1)]
+                if None not in parts:
+                    got = (bytes(parts[0]), bytes(parts[1]))
+        if got != exp:
+            bad.append("mnemonic_split_index(%r) = %s, expected %s" % (x, got if got else [(r.outcome, r.retval) for r in res], exp))
+    R.check(not bad, "R03.3", "mnemonic_split_index", "splits before the maximal run of trailing digits; None without trailing digits or without a name part (%d probes)" % len(probes), "; ".join(bad[:4]), where=sp.span)
 
     # ---- R03.4 routing ----------------------------------------------------------------------------------------------------
-    mph = u.body("scpi::parser::tokenizer::token::Token::match_program_header")
-    eng2 = D.engine(inline=lambda n, r: False)
-    for name in M.NONDATA + M.DATA:
-        tok = M.token(eng2, name)
-        rr = eng2.run(mph, [RefV(Cell(tok, "tok")), SymV("mnemonic", "mnemonic")])
-        pis = [D.PathInfo(r) for r in rr]
-        if name in ("ProgramMnemonic", "CharacterProgramData"):
-            ok = len(pis) == 1 and [n.split("::")[-1] for n in pis[0].call_names] == ["mnemonic_match"] and "'mnemonic'" in repr(pis[0].calls[0].args[0]) and ("tok-%s-0" % name) in repr(pis[0].calls[0].args[1]) and pis[0].outcome == "ret:mnemonic_match"
-            R.check(ok, "R03.4", "match_program_header(%s)" % name, "mnemonic_match(defined, payload)", "match_program_header(%s) must be mnemonic_match(mnemonic, payload) - with the default-1 suffix rule: %s" % (name, [p.describe() for p in pis]), where=mph.span)
-        else:
-            ok = len(pis) == 1 and not pis[0].calls and isinstance(rr[0].retval, K) and rr[0].retval.v is False
-            R.check(ok, "R03.4", "match_program_header(%s)" % name, "false", "match_program_header(%s) must be false: %s" % (name, [p.describe() for p in pis]))
+    header_match_table(R, "R03.4", eng)
     # keyword literals are compared with mnemonic_compare (no suffix rule), everything else that matches uses mnemonic_match
     n_kw = 0
     for unit in P.units:
@@ -311,17 +254,3 @@ def run(R, tier):
     R.trust("core::iter::Iterator::all / rposition, slice::split_at and slice equality behave as documented")
 
 
-def _bytes_in(t):
-    for x in _flat(t):
-        if isinstance(x, tuple) and x and x[0] == "bytes":
-            return x[1]
-    return None
-
-
-def _flat(t):
-    out = []
-    if isinstance(t, tuple):
-        out.append(t)
-        for x in t:
-            out.extend(_flat(x))
-    return out
